@@ -77,6 +77,23 @@ theorem findIdx_bracket (g : Nat → Rat) (x : Rat) (m : Nat) (hb : inBounds g m
   · have := findIdx_le g x m
     exact le_of_lt (findIdx_upper g x m _ (Nat.lt_succ_self _) (by omega))
 
+/-- a grid with increasing steps up to node `m + 1` is increasing -/
+theorem mono_of_step (g : Nat → Rat) (m : Nat) (hs : ∀ j, j ≤ m → g j < g (j + 1)) (i j : Nat)
+    (hij : i < j) (hj : j ≤ m + 1) : g i < g j := by
+  induction j with
+  | zero => omega
+  | succ k ih =>
+    by_cases hk : i = k
+    · subst hk; exact hs i (by omega)
+    · exact lt_trans (ih (by omega) (by omega)) (hs k (by omega))
+
+/-- at a node (other than the last) the search returns that node -/
+theorem findIdx_at_node (g : Nat → Rat) (m : Nat) (hs : ∀ j, j ≤ m → g j < g (j + 1)) (i : Nat) (hi : i ≤ m) :
+    findIdx g (g i) m = i := by
+  apply findIdx_eq _ _ _ _ hi (Or.inl (le_refl _))
+  intro k hk hkm
+  exact mono_of_step g m hs i k hk (by omega)
+
 /-! ## multilinear interpolation -/
 
 theorem locate_some (g0 g1 g2 : Nat → Rat) (m0 m1 m2 : Nat) (p : V3)
